@@ -122,6 +122,31 @@ def sites4(repo):
     return out
 
 
+def sites5(repo):
+    """fifth operator set: a propagated error swallowed (`x?;` -> `x.ok();`), an early return / break deleted"""
+    out = []
+    for f in FILES:
+        p = os.path.join(repo, f)
+        if not os.path.exists(p):
+            continue
+        lines = open(p).read().split("\n")
+        end = len(lines)
+        for i, l in enumerate(lines):
+            if l.strip().startswith("#[cfg(test)]"):
+                end = i
+                break
+        for i in range(end):
+            l = lines[i]
+            code = l.split("//")[0].rstrip()
+            if code.endswith("?;") and "let " not in code:
+                k = code.rfind("?;")
+                out.append((f, i, k, "?;", ".ok();", "swallow-error"))
+            st_ = code.strip()
+            if st_ in ("return;", "break;", "continue;") or (st_.startswith("return ") and st_.endswith(";") and "(" not in st_[:8]):
+                out.append((f, i, 0, l, "", "delete"))
+    return out
+
+
 def sites(repo, ops2=False):
     out = []
     for f in FILES:
@@ -248,12 +273,13 @@ def main():
     ap.add_argument("--files", default="")
     ap.add_argument("--every", type=int, default=1, help="take every n-th site")
     ap.add_argument("--out", default="")
+    ap.add_argument("--ops5", action="store_true", help="fifth operator set: swallowed errors, deleted early returns / breaks")
     ap.add_argument("--ops4", action="store_true", help="fourth operator set: conditions forced to true / false")
     ap.add_argument("--ops3", action="store_true", help="third operator set: positional arguments swapped, assignments deleted")
     ap.add_argument("--ops2", action="store_true", help="second operator set: identifier swaps, dropped negations, constants - 1")
     a = ap.parse_args()
     props = [c["property_id"] for c in json.load(open(os.path.join(HERE, "MANIFEST.json")))["checks"]]
-    all_sites = sites4("/repo") if a.ops4 else sites3("/repo") if a.ops3 else sites("/repo", a.ops2)
+    all_sites = sites5("/repo") if a.ops5 else sites4("/repo") if a.ops4 else sites3("/repo") if a.ops3 else sites("/repo", a.ops2)
     if a.files:
         keep = a.files.split(",")
         all_sites = [s for s in all_sites if any(k in s[0] for k in keep)]
